@@ -1,10 +1,10 @@
 (* Props/C09.v -- pattern equivalence is a total, sound equivalence relation
    (DESIGN.md 6/C09, Appendix A.5).  Model: Model/PatternEq.v; specification:
-   Spec/PatternSemantics.v; proofs: Proofs/PatternEq*.v.                   *)
+   Spec/PatternSemantics.v, Spec/PatternRules.v; proofs: Proofs/PatternEq*.v. *)
 From Coq Require Import NArith ZArith List Bool String.
-From V Require Import Base.UString Model.PatternEq Spec.PatternSemantics
+From V Require Import Base.UString Model.PatternEq Spec.PatternSemantics Spec.PatternRules
      Proofs.PatternEqCmp Proofs.PatternEqLists Proofs.PatternEqC Proofs.PatternEqDnf Proofs.PatternEqNorm
-     Proofs.PatternEqTop Proofs.PatternEqO Proofs.PatternEqWitness Proofs.PatternEqSort Proofs.PatternEqRecog Proofs.PatternEqErr Proofs.PatternEqIp4 Proofs.PatternEqValid Proofs.PatternEqTerm Proofs.PatternEqTermDnf.
+     Proofs.PatternEqTop Proofs.PatternEqO Proofs.PatternEqWitness Proofs.PatternEqSort Proofs.PatternEqRecog Proofs.PatternEqErr Proofs.PatternEqIp4 Proofs.PatternEqValid Proofs.PatternEqTerm Proofs.PatternEqTermDnf Proofs.PatternEqRulesTop.
 Import ListNotations.
 
 (* ---- the comparators are lawful (reflexive, antisymmetric, transitive as a total preorder) ---- *)
@@ -198,11 +198,65 @@ Proof.
 Qed.
 Print Assumptions equiv_sound_repaired.
 
-(* ---- the documented rewrites are recognised.  For arbitrary sub-expressions the statements are about the
-        pass responsible for the rewrite; for patterns made of one comparison, about the whole pipeline
-        (recognises_*_full).  A statement "equiv lhs rhs = Ok true for all sub-ASTs" through the whole
-        pipeline would need a confluence proof of the settle loops and is not claimed; the harness checks
-        such instances on every run instead (oracle `recognise`). ---- *)
+(* ---- the documented rewrites are recognised.
+
+   (a) THROUGH THE WHOLE PIPELINE, for arbitrary sub-expressions as operands: commutativity, associativity and
+       idempotence (and parentheses), at both levels.  The rule instances are the relations crule / orule of
+       Spec/PatternRules.v, on the parsed pattern; whenever `equiv` answers on an instance the answer is true, and
+       for constructor-valid patterns it does answer.  Proof: one round of flatten/order/absorb maps the two
+       sides to comparator-equal trees (sort-and-dedupe is canonical for a set of operands, PatternEqSort.
+       sortdedupe_set), a settle loop may be entered one round later, and every later pass respects
+       comparator-equality including its `changed` flag (PatternEqCong.v, PatternEqCongO.v).  Instances are at
+       the root of an expression (a comparison-level instance: at the root of a comparison expression, inside
+       any observation context); chains of instances follow by equiv_trans, the converse direction by
+       equiv_sym.  An instance strictly inside a larger expression of the same level is checked per run by the
+       oracle `recognise` only.
+
+   (b) PER PASS, plus the per-run oracle: absorption and distribution.  The whole-pipeline statement for
+       absorption,
+
+         forall v fuel a b r,  equiv v fuel a (OOr0 [a; OAnd0 [a; b]]) = Ok r  ->  r = true
+         (and the same with OFby0 [a; b], OFby0 [b; a]),
+
+       is FALSE on the current code: AbsorptionTransformer skips a qualified first operand (known finding
+       C09-absorption-qualified-operand), e.g. a = [a:x = 1] REPEATS 2 TIMES, b = [c:z = 3] is answered False
+       (absorption_not_recognised_full below; with a unqualified the same pair is answered True).  For
+       distribution,
+
+         forall v fuel a b c r,  equiv v fuel (OAnd0 [a; OOr0 [b; c]]) (OOr0 [OAnd0 [a; b]; OAnd0 [a; c]]) = Ok r  ->  r = true,
+
+       no counterexample is known, but a proof needs the DNF pass to commute with the settle loops up to
+       comparator-equality (absorption inside the distributed operands happens before the DNF on one side and
+       after it on the other, and is itself not uniform, see above); it is not claimed.  Both are stated for the
+       pass responsible (recognises_absorption_*, recognises_distribution) and checked on generated instances
+       in every run.
+
+   For patterns made of one comparison the remaining rewrites (set order, numeric equality) are stated through
+   the whole pipeline as well (recognises_*_full at the end of this section). ---- *)
+
+Theorem recognises_rules_comparison_full : forall v fuel c c' n n' ch ch',
+    crule c c' -> cnormalize v fuel c = Ok (n, ch) -> cnormalize v fuel c' = Ok (n', ch') -> ccmp n n' = Eq.
+Proof. intros v fuel c c' n n' ch ch' HR. exact (crule_sound v fuel c c' HR n n' ch ch'). Qed.
+Print Assumptions recognises_rules_comparison_full.
+
+Theorem recognises_rules_full : forall v fuel p q b, orule p q -> equiv v fuel p q = Ok b -> b = true.
+Proof. exact orule_recognised. Qed.
+Print Assumptions recognises_rules_full.
+
+Theorem recognises_rules_full_total : forall p q,
+    orule p q -> valid_o p = true -> valid_o q = true -> exists fuel, forall k, equiv repaired (fuel + k) p q = Ok true.
+Proof. exact orule_recognised_total. Qed.
+Print Assumptions recognises_rules_full_total.
+
+(* the relations are inhabited at every constructor; two instances computed outright *)
+Example recognises_rules_instance_commutativity :
+  orule (OAnd0 [w_abs_A; w_abs_B]) (OAnd0 [w_abs_B; w_abs_A]) /\ equiv repaired 8 (OAnd0 [w_abs_A; w_abs_B]) (OAnd0 [w_abs_B; w_abs_A]) = Ok true.
+Proof. split; [apply or_and_comm; apply Permutation.perm_swap | vm_compute; reflexivity]. Qed.
+
+Theorem absorption_not_recognised_full :
+  exists a b, equiv repaired 8 a (OOr0 [a; OAnd0 [a; b]]) = Ok false.
+Proof. exists w_abs_A, w_abs_B. exact absorption_qualified_whole_pipeline. Qed.
+Print Assumptions absorption_not_recognised_full.
 
 Theorem recognises_commutativity_comparison : forall o l l',
     Permutation.Permutation l l' -> ccmp (fst (corder_node o l)) (fst (corder_node o l')) = Eq.
